@@ -638,7 +638,10 @@ ipc_ep_close(void *arg)
 		nni_pipe_close(p->pipe);
 	}
 	NNI_LIST_FOREACH (&ep->wait_pipes, p) {
+		// Nobody else will release our hold on a pipe that finished
+		// negotiating but was never handed to an accept or connect.
 		nni_pipe_close(p->pipe);
+		nni_pipe_rele(p->pipe);
 	}
 	nni_mtx_unlock(&ep->mtx);
 }
